@@ -106,6 +106,7 @@ type Machine struct {
 	NTrivial, NAsserts               int
 	Trace2                           bool
 	holdDepth                        int
+	SincePositive                    bool
 	approxMemo, approxBody           map[string]T
 	approxList                       map[string][]approxRec
 	divList                          []divRec
